@@ -107,3 +107,34 @@ G2_inter += [
     r('Plane.project_point', [PLANE, P3], name='Plane_project_point'),
 ]
 LAYERS.append(('G2_inter', G2_inter))
+
+POLY2 = O('Polygon2D')
+G3_poly = [
+    r('Polygon2D.area', [POLY2]),
+    r('Polygon2D.is_clockwise', [POLY2]),
+    r('Polygon2D._are_clockwise', [TLst(P2)], name='Polygon2D_are_clockwise'),
+    r('Polygon2D.perimeter', [POLY2]),
+    r('Polygon2D.min', [POLY2]),
+    r('Polygon2D.max', [POLY2]),
+    r('Polygon2D.center', [POLY2]),
+    r('Polygon2D.reverse', [POLY2]),
+    r('Polygon2D.move', [POLY2, V2]),
+    r('Polygon2D.rotate', [POLY2, Q, P2]),
+    r('Polygon2D.reflect', [POLY2, V2, P2]),
+    r('Polygon2D.scale', [POLY2, Q, P2]),
+]
+LAYERS.append(('G3_poly', G3_poly))
+
+FACE = O('Face3D')
+G4_face = [
+    r('Face3D._normal_from_3pts', [P3, P3, P3], name='Face3D_normal_from_3pts'),
+    r('Face3D._plane_from_vertices', [TLst(P3)], name='Face3D_plane_from_vertices'),
+    r('Face3D.__init__', [TLst(P3)], name='Face3D_init'),
+    r('Face3D.__init__', [TLst(P3), PLANE], name='Face3D_init_plane'),
+    r('Face3D.polygon2d', [FACE]),
+    r('Face3D.area', [FACE]),
+    r('Face3D.normal', [FACE]),
+    r('Face3D.is_clockwise', [FACE]),
+    r('Face3D.flip', [FACE]),
+]
+LAYERS.append(('G4_face', G4_face))
